@@ -293,7 +293,11 @@ var bigCheck = &core.Check{Name: "c01/big", Fn: func(c *core.Ctx) error {
 	if shape != 2 && n > 1025 {
 		return nil // only the wide tree stays below the depth limit of 1024 at these sizes
 	}
-	nodes := gen.Dag(c, gen.DagOpts{MaxNodes: n, Shape: shape, SmallBit: shape != 1})
+	// node i holds the number i: n distinct cells (drawn data would repeat and the bag would shrink to a few cells)
+	nodes := gen.Dag(c, gen.DagOpts{MaxNodes: n, Shape: shape, Indexed: true})
+	if d := distinctCells(nodes[len(nodes)-1]); shape != 0 && d != n {
+		return fmt.Errorf("HARNESS: the generated bag has %d distinct cells, wanted %d", d, n)
+	}
 	root := nodes[len(nodes)-1]
 	shared, err := gen.ToTongo(root, true, 1<<21)
 	if err != nil {
@@ -360,12 +364,13 @@ func TestProp(t *testing.T) {
 
 func TestEnum(t *testing.T) {
 	core.RunEnum(t, bigCheck, "bags around the ref-index and depth limits", func(yield func(...uint64) bool) {
-		sizes := []int{255, 256, 257, 1024, 1025}
-		if core.Thorough() {
-			sizes = append(sizes, 65535, 65536, 65537)
-		}
+		// 65536 cells is where reference indices start to need three bytes
+		sizes := []int{255, 256, 257, 1024, 1025, 65535, 65536, 65537}
 		for _, n := range sizes {
 			for shape := 0; shape < 4; shape++ {
+				if n > 1025 && shape != 2 {
+					continue // only the wide tree stays below the depth limit at these sizes
+				}
 				if !yield(uint64(n), uint64(shape)) {
 					return
 				}
